@@ -88,10 +88,11 @@ def run(prop, tier, seed):
         states += res.get("states", 0)
         distinct += res.get("distinct", 0)
         runs.append({"cfg": cfg, "states": res.get("states"), "distinct": res.get("distinct"), "wall_s": round(res["wall"], 1)})
-    worlds = 4 if tier == "quick" else 40
+    worlds, ops, dry = (3, 7, 40) if tier == "quick" else (30, 9, 150)
     trace = os.path.join(WORK, "wallet-runes-%s-%d.ndjson" % (tier, seed))
     if not (os.path.exists(trace) and os.environ.get("VERIF_REUSE_TRACE") == "1"):
-        ordv(["wallet-runes", "--seed", str(seed), "--worlds", str(worlds), "--ops", "9", "--out", trace], timeout=14000)
+        ordv(["wallet-runes", "--seed", str(seed), "--worlds", str(worlds), "--ops", str(ops), "--dry-splits", str(dry), "--out", trace],
+             timeout=14000)
     validate(prop, prop, trace, outcome)
     validate("DRIFT", prop, trace, outcome, verdict=False)
     lines = [x for x in read_ndjson(trace) if x["event"] == "Op"]
@@ -106,10 +107,12 @@ def run(prop, tier, seed):
            "rule": "seeded random wallets on a mock node (1-3 runes with divisibility 0-2 etched by raw transactions, 1-4 runic outputs of "
                    "several runes each plus a remainder output, 0-2 inscribed outputs, optionally one output both inscribed and runic, all "
                    "non-cardinal outputs larger than any cardinal one so that an unlocked one would be picked by the node's largest-first "
-                   "funding), 9 real `ord wallet send|burn|split|mint|send <btc>` commands per wallet run as subprocesses with boundary "
-                   "amounts (0, 1, first holder's balance +-1, total, total+1), each broadcast transaction mined and indexed by the real "
-                   "index; TLC evaluates the clauses on the index's balances; distinct_nontrivial = distinct (request, inventory) pairs whose "
-                   "transaction had several inputs or several edicts",
+                   "funding). Per wallet, first every boundary request as a dry run (send and burn of 0, 1 and every prefix sum of the "
+                   "holders' balances +-1 per rune; split files over every combination of absent/boundary amount per rune, some spread over "
+                   "two outputs), judged on the rune protocol (RuneRules) applied to the returned transaction; then random real "
+                   "`ord wallet send|burn|split|mint|send <btc>` commands, each broadcast transaction mined and indexed by the real index and "
+                   "judged on the index's balances; distinct_nontrivial = distinct (request, inventory) pairs whose transaction had several "
+                   "inputs or several edicts",
            "samples": [lines[0], lines[len(lines) // 2]], "states": distinct, "transitions": states, "level_a_models": runs,
            "traces_validated_against_impl": 1, "outcome_classes": classes}
     return outcome, cov, time.time() - t0
